@@ -221,7 +221,11 @@ def wl_ops(ctx, idx, rng):
             ctx.violation(o, f"{label} raised {type(rexc).__name__} on NumPy data but returned on Dask data", None, dict(feats, what="exc_only_numpy"))
         return
     if dexc is not None:
-        if isinstance(dexc, ValueError) and "single chunk" in str(dexc) and len(chunks[0]) > 1 and label in FFT_OPS:
+        # Dask's own refusal is the sanctioned outcome when an axis the operation transforms has several chunks:
+        # the time axis for every FFT-based op, and the channel axis for stft/istft (which reshape it into the transformed axis)
+        fft_axes = (0, 1) if label in ("stft", "istft") else (0,)
+        if (isinstance(dexc, ValueError) and "single chunk" in str(dexc) and label in FFT_OPS
+                and any(len(chunks[a]) > 1 for a in fft_axes if a < len(chunks))):
             ctx.count("refused_time_chunked_fft")
             ctx.bucket(label, clsname, layout, "refused")
             return
